@@ -5,11 +5,14 @@ use std::time::Duration;
 thread_local! {
     static VNOW: Cell<Option<u64>> = const { Cell::new(None) };
     static READS: Cell<u64> = const { Cell::new(0) };
+    static FIRST_READ: Cell<Option<u64>> = const { Cell::new(None) };
+    static ELAPSED_READS: Cell<u64> = const { Cell::new(0) };
 }
 
 /// Arms the virtual clock of this thread at `nanos`.
 pub fn arm(nanos: u64) {
     VNOW.with(|c| c.set(Some(nanos)));
+    FIRST_READ.with(|c| c.set(None));
 }
 /// Disarms the virtual clock: `Instant` falls back to the real clock.
 pub fn disarm() {
@@ -32,6 +35,15 @@ pub fn reads() -> u64 {
     READS.with(|c| c.get())
 }
 
+/// Virtual time of the first `Instant::now()` since the clock was last armed.
+pub fn first_read() -> Option<u64> {
+    FIRST_READ.with(|c| c.get())
+}
+/// Number of `Instant::elapsed()` calls made through the shim on this thread.
+pub fn elapsed_reads() -> u64 {
+    ELAPSED_READS.with(|c| c.get())
+}
+
 #[derive(Clone, Copy, Debug)]
 pub enum Instant {
     Real(std::time::Instant),
@@ -41,11 +53,19 @@ impl Instant {
     pub fn now() -> Self {
         READS.with(|c| c.set(c.get() + 1));
         match now_nanos() {
-            Some(v) => Instant::Virtual(v),
+            Some(v) => {
+                FIRST_READ.with(|c| {
+                    if c.get().is_none() {
+                        c.set(Some(v))
+                    }
+                });
+                Instant::Virtual(v)
+            }
             None => Instant::Real(std::time::Instant::now()),
         }
     }
     pub fn elapsed(&self) -> Duration {
+        ELAPSED_READS.with(|c| c.set(c.get() + 1));
         match self {
             Instant::Real(i) => i.elapsed(),
             Instant::Virtual(v0) => {
